@@ -60,6 +60,7 @@ mut("m05c_ewma_resets_on_none", "C05", CTRL, "                    Ok(_) => {}\n 
 mut("m05d_ma_keeps_window_on_err", "C05", CTRL, "                self.value = Err(error);\n                self.input_values.clear();", "                self.value = Err(error);")
 mut("m05e_tostate_resets_on_none", "C05", CONV, "                    None => (), //This just does nothing if the input gives a None. It does not reset\n                                //it or anything.", "                    None => { self.update = None; }")
 mut("m05f_freeze_inverted", "C05", FLOW, "        if !condition {\n            let gotten = self.input.borrow().get();", "        if condition {\n            let gotten = self.input.borrow().get();")
+mut("m05i_q2f_get_rereads_input", "C05", CONV, "    fn get(&self) -> Output<f32, E> {\n        self.value\n    }", "    fn get(&self) -> Output<f32, E> {\n        match self.input.borrow().get() {\n            Err(error) => Err(error),\n            Ok(None) => Ok(None),\n            Ok(Some(datum)) => Ok(Some(Datum::new(datum.time, datum.value.value))),\n        }\n    }", note="get() is no longer a pure read of the cached value: visible only when the input changes between update and get")
 mut("m05h_derivative_stale_err", "C05", MATH, "            None => {\n                self.value = Ok(None);\n                self.prev_output = Some(output);\n                return Ok(());\n            }\n        };\n        let value =\n            (output.value", "            None => {\n                self.prev_output = Some(output);\n                return Ok(());\n            }\n        };\n        let value =\n            (output.value", note="D2 re-introduced in DerivativeStream")
 # ---- C08
 mut("m08a_gear_r2_minus_1", "C08", DEV, "let newstate2 = (x_plus_r_y * self.ratio) / r_squared_plus_1;", "let newstate2 = (x_plus_r_y * self.ratio) / (self.ratio * self.ratio - 1.0);")
